@@ -477,9 +477,57 @@ impl Part for Render {
 
 pub struct Grid;
 
-const SUBJECTS: [&str; 17] = [
+const SUBJECTS: [&str; 20] = [
     "n", "b", "i", "big", "f", "s", "e", "l", "ls", "m", "ll", "u", "(1, 2)", "'abc'", "range(3)", "-1", "0",
+    // strings that start with / consist of multi-byte characters (byte-offset slips)
+    "'\u{e9}l\u{e0}n \u{df}x'", "'\u{1F600}\u{e9} \u{1F600}'", "['\u{e9}a', '\u{df}']",
 ];
+
+/// names registered in `get_builtin_filters` / `get_builtin_tests` of the tree under test, read
+/// from its source so that a filter added (or renamed) there is in the grid without touching the
+/// harness; the static lists are the fallback and are always included
+fn discovered(section: &str) -> Vec<String> {
+    let repo = std::env::var("VERIF_REPO").unwrap_or_else(|_| "/repo".into());
+    let Ok(src) = std::fs::read_to_string(format!("{repo}/minijinja/src/defaults.rs")) else {
+        return vec![];
+    };
+    let Some(at) = src.find(section) else { return vec![] };
+    let body = &src[at..];
+    let end = body[1..].find("\nfn ").or_else(|| body[1..].find("\npub fn ")).map(|e| e + 1).unwrap_or(body.len());
+    let mut out = vec![];
+    let mut rest = &body[..end];
+    while let Some(q) = rest.find('"') {
+        let after = &rest[q + 1..];
+        let Some(e) = after.find('"') else { break };
+        let name = &after[..e];
+        if after[e + 1..].starts_with(".into()") && !name.is_empty() && name.chars().all(|c| c.is_ascii_alphanumeric() || c == '_') {
+            out.push(name.to_string());
+        }
+        rest = &after[e + 1..];
+    }
+    out
+}
+
+fn grid_filters() -> Vec<String> {
+    let mut v: Vec<String> = free::FILTERS.iter().map(|s| s.to_string()).collect();
+    v.extend(free::EXTRA_FILTERS.iter().filter(|f| **f != "nosuchfilter").map(|s| s.to_string()));
+    for d in discovered("fn build_builtin_filters") {
+        if !v.contains(&d) {
+            v.push(d);
+        }
+    }
+    v
+}
+
+fn grid_tests() -> Vec<String> {
+    let mut v: Vec<String> = free::TESTS.iter().map(|s| s.to_string()).collect();
+    for d in discovered("fn build_builtin_tests") {
+        if !v.contains(&d) {
+            v.push(d);
+        }
+    }
+    v
+}
 
 const ARGS: [&str; 20] = [
     "0",
@@ -540,7 +588,8 @@ fn grid_sources(tier: Tier) -> Vec<String> {
     let mut lists = vec![];
     arg_lists(&mut lists);
     let subjects = &SUBJECTS[..];
-    for f in free::FILTERS {
+    let filters = grid_filters();
+    for f in &filters {
         for subj in subjects {
             for a in &lists {
                 if a.is_empty() {
@@ -559,7 +608,8 @@ fn grid_sources(tier: Tier) -> Vec<String> {
             }
         }
     }
-    for t in free::TESTS {
+    let tests = grid_tests();
+    for t in &tests {
         if t == "==" {
             continue;
         }
@@ -673,14 +723,135 @@ impl Part for Grid {
     }
 }
 
-crate::declare_parts!(Render, Grid);
+
+// ------------------------------------------------------------------ accumulators: values grown step by step in a loop
+
+/// Values built up over thousands of loop iterations (prepend/append/concatenate/chain/merge) and
+/// then consumed: lazily composed values must not turn the number of steps into native recursion.
+/// (Wrapping the accumulator into a new container each step — `[ns.a]`, `{"k": ns.a}` — is the
+/// listed deep-value finding and is left to its witness.)
+pub struct Accumulators;
+
+const ACC_STEPS: [(&str, &str, bool); 15] = [
+    // (initial value, step expression, constant cost per step)
+    ("[]", "[i] + ns.a", true),
+    ("[]", "ns.a + [i]", true),
+    ("[]", "[i] + ns.a + [i]", true),
+    ("[]", "ns.a|chain([i])", true),
+    ("[]", "[i]|chain(ns.a)", true),
+    ("[]", "(ns.a + [i])|list", false),
+    ("[]", "ns.a|reverse", true),
+    ("[]", "(ns.a|map('string')|list)[:50] + [i]", false),
+    ("()", "ns.a + (i,)", true),
+    ("''", "ns.a ~ i", false),
+    ("''", "i ~ ns.a", false),
+    ("''", "'x' + ns.a", false),
+    ("{}", "dict(ns.a, k=i)", true),
+    ("{}", "ns.a|items|list|batch(3)|first|default([], true)", true),
+    ("0", "ns.a + i", true),
+    // not here: `ns.a[:] + [i]` — slices are lazy adapters that nest without bound (listed finding
+    // F-C01-lazyslice, run through its witness)
+];
+
+const ACC_USES: [&str; 8] = [
+    "{{ ns.a|length }}",
+    "{% for x in ns.a %}{% endfor %}",
+    "{{ ns.a|last }}",
+    "{{ ns.a|string|length }}",
+    "{{ ns.a == ns.a }}",
+    "{{ ns.a|tojson|length }}",
+    "{{ (ns.a|list|sort)[:3] }}",
+    "{{ ns.a is sequence }}{{ ns.a|first }}",
+];
+
+fn accumulator_cases(tier: Tier) -> Vec<RenderCase> {
+    let mut out = vec![];
+    let mut i = 0usize;
+    for (init, step, cheap) in ACC_STEPS {
+        let mut sizes = vec![6_000u32];
+        if cheap {
+            sizes.push(tier.pick(30_000, 120_000));
+        }
+        for n in sizes {
+            for use_ in ACC_USES {
+                // the most expensive consumers only on the smaller size
+                if n > 6_000 && (use_.contains("sort") || use_.contains("tojson") || use_.contains("string")) {
+                    continue;
+                }
+                let source = format!(
+                    "{{% set ns = namespace(a={init}) %}}{{% for i in range({n}) %}}{{% set ns.a = {step} %}}{{% endfor %}}{use_}"
+                );
+                out.push(RenderCase {
+                    main_name: "main.txt".into(),
+                    source,
+                    companions: vec![],
+                    ctx: None,
+                    undefined: 0,
+                    debug: false,
+                    stack_kib: if i % 2 == 0 { 2048 } else { 8192 },
+                    fuel: Some(20_000_000),
+                    as_expression: false,
+                });
+                i += 1;
+            }
+        }
+    }
+    out
+}
+
+impl Part for Accumulators {
+    type Case = RenderCase;
+    const NAME: &'static str = "accumulators";
+
+    fn strategy(_tier: Tier) -> BoxedStrategy<RenderCase> {
+        let all = accumulator_cases(Tier::Quick);
+        (0..all.len()).prop_map(move |i| all[i].clone()).boxed()
+    }
+
+    fn enumeration(tier: Tier) -> Vec<RenderCase> {
+        accumulator_cases(tier)
+    }
+
+    fn check(c: &RenderCase) -> Verdict {
+        let mut v = Render::check(c);
+        v.labels.clear();
+        v.nontrivial = true;
+        v
+    }
+
+    fn show(c: &RenderCase) -> serde_json::Value {
+        serde_json::json!({"source": c.source, "stack_kib": c.stack_kib})
+    }
+
+    fn shrink_candidates(c: &RenderCase) -> Vec<RenderCase> {
+        // fewer steps first
+        let mut out = vec![];
+        if let Some(at) = c.source.find("range(") {
+            let rest = &c.source[at + 6..];
+            if let Some(end) = rest.find(')') {
+                if let Ok(n) = rest[..end].parse::<u32>() {
+                    for m in [n / 2, n - n / 4, n - 1] {
+                        if m > 0 && m < n {
+                            let mut d = c.clone();
+                            d.source = format!("{}range({m}){}", &c.source[..at], &rest[end + 1..]);
+                            out.push(d);
+                        }
+                    }
+                }
+            }
+        }
+        out
+    }
+}
+
+crate::declare_parts!(Render, Grid, Accumulators);
 
 pub fn replay_any(ctx: &mut Ctx, rf: &ReplayFile) -> bool {
-    ctx.replay_isolated::<Render>(rf) || ctx.replay_isolated::<Grid>(rf) || replay(ctx, rf)
+    ctx.replay_isolated::<Render>(rf) || ctx.replay_isolated::<Grid>(rf) || ctx.replay_isolated::<Accumulators>(rf) || replay(ctx, rf)
 }
 
 pub fn run(ctx: &mut Ctx) {
-    ctx.rule = "free-mode templates from a grammar over every statement and expression kind, every built-in filter/test/function/loop method with boundary arguments (0, +-1, 2^31, 2^63, 2^64, 2^127, 10^5+1, 2001 ...), companions a.txt/b.html/c.txt generated the same way (include/import/extends incl. cycles), 15% random character-level mutations (delete/insert delimiter/truncate), unparenthesised operator/postfix/elif ladders and statement nestings up to length 180, contexts of none/bool/int/float/string/list/map; run in worker processes of the debug (opt-level 0, overflow checks) and release builds on 2 MiB and 8 MiB threads; every returned error is formatted in all forms. Oracle: the worker survives and no panic is caught. Non-trivial: the template loaded (the VM ran) or a syntax error was reported beyond line 0 of a source longer than 12 bytes. Distinct by case.".into();
+    ctx.rule = "free-mode templates from a grammar over every statement and expression kind, every built-in filter/test/function/loop method with boundary arguments (0, +-1, 2^31, 2^63, 2^64, 2^127, 10^5+1, 2001 ...), companions a.txt/b.html/c.txt generated the same way (include/import/extends incl. cycles), 15% random character-level mutations (delete/insert delimiter/truncate), unparenthesised operator/postfix/elif ladders and statement nestings up to length 180, contexts of none/bool/int/float/string/list/map; run in worker processes of the debug (opt-level 0, overflow checks) and release builds on 2 MiB and 8 MiB threads; every returned error is formatted in all forms; part accumulators grows a namespace attribute over 6 000 - 120 000 loop steps with 15 step expressions (prepend/append/concatenate/chain/reverse/merge) and consumes it in 8 ways. Oracle: the worker survives and no panic is caught. Non-trivial: the template loaded (the VM ran) or a syntax error was reported beyond line 0 of a source longer than 12 bytes. Distinct by case.".into();
     ctx.assumptions = vec![
         "worker address space is limited to 6 GiB so template-chosen allocation sizes fail fast; a watchdog hit (no progress for 60 s) is counted as inconclusive, not as a violation".into(),
         "ladder lengths are capped (120/180) so that the listed deep-recursion finding does not end every campaign; its witness is run separately".into(),
@@ -692,6 +863,8 @@ pub fn run(ctx: &mut Ctx) {
     }
     ctx.run_enum_isolated::<Grid>("MJV_DBG", "debug", 30);
     ctx.run_enum_isolated::<Grid>("MJV_REL", "release", 30);
+    ctx.run_enum_isolated::<Accumulators>("MJV_DBG", "debug", 120);
+    ctx.run_enum_isolated::<Accumulators>("MJV_REL", "release", 120);
     ctx.run_part_isolated::<Render>("MJV_DBG", "debug", t.pick(60_000, 1_000_000), 30);
     ctx.run_part_isolated::<Render>("MJV_REL", "release", t.pick(200_000, 5_000_000), 30);
 }
